@@ -23,7 +23,10 @@ THEOREMS = [
 ]
 TIE_MODULES = ['Tie.Flags']
 
-ELEMS = [S('a'), S('ab'), REF('A'), RX('a+'), ALT(S('a'), S('b')), SEQ(S('a'), OPT(S('b'))), REF('C')]
+# the last three can match without consuming: an empty match is a match and counts towards the bounds (with an upper bound the
+# repetition ends; without one such elements are ill-formed and the generator's well-formedness test drops them)
+ELEMS = [S('a'), S('ab'), REF('A'), RX('a+'), ALT(S('a'), S('b')), SEQ(S('a'), OPT(S('b'))), REF('C'),
+         OPT(S('a')), REP(0, None, S('a')), REF('B')]
 SEPS = [S(','), S('b'), REF('A'), RX(',+'), OPT(S(',')), LEFT(S(','), S('a'))]
 EXTRA = ['a,a,a,a', 'ab,ab,', 'aa,,a', 'a,a,b', 'ababab', 'aaaaaa']
 
